@@ -22,11 +22,18 @@ open Subj (Action Call upd disposedExn)
 
 abbrev Id := Nat
 
-structure Cfg where
+/-- What a user callback may do: the C20 actions, or emit into the same subject (re-entrant
+`subject.on_next / on_error / on_completed` from inside the callback — a feedback loop). -/
+inductive RAction (α : Type) where
+  | base (a : Action)
+  | emit (n : Notif α)
+deriving Repr
+
+structure Cfg (α : Type) where
   bufferSize : Option Nat            -- None = sys.maxsize
   window : Option Nat                -- None = timedelta.max
   hasErr : Id → Bool
-  react : Id → Nat → List Action
+  react : Id → Nat → List (RAction α)
 
 inductive ItemKind (α : Type) where
   | call (k : Nat) (c : Call α)      -- history call number k
@@ -42,8 +49,8 @@ structure Item (α : Type) where
 deriving Repr
 
 /-- Synchronous work pending inside the currently executing scheduler action. -/
-inductive Task where
-  | act (who : Option Id) (a : Action)    -- `none`: the history call itself; `some i`: a reaction of observer i
+inductive Task (α : Type) where
+  | act (who : Option Id) (a : RAction α) -- `none`: the history call itself; `some i`: a reaction of observer i
   | sadDispose (i : Id)                   -- `finally: self.dispose()` of a terminal AutoDetachObserver callback
   | resched (i : Id)                      -- `self.scheduler.schedule(self.run)` at the end of ScheduledObserver.run
   | handle (j : Id)                       -- `subscribe` (fail path) returns: the user now holds j's handle
@@ -51,13 +58,14 @@ deriving Repr
 
 /-- Global order of the observable events of a run (compared with the real code, and what the
 property oracle reads). -/
-inductive EvR where
+inductive EvR (α : Type) where
+  | emit (i now : Nat) (n : Notif α)  -- observer i's callback emits n into the subject (re-entrant)
   | call (k now nobs : Nat)   -- history call k starts, `scheduler.now` = now, `len(subject.observers)` = nobs
   | sub (j now : Nat)         -- subscribe(j) is attempted (top level or reaction)
   | unsub (j : Nat)           -- the handle of j's subscription is disposed
   | dispose                   -- subject.dispose()
   | cb (i now : Nat)          -- a user callback of observer i runs
-deriving Repr, DecidableEq
+deriving Repr
 
 structure St (α : Type) where
   -- ReplaySubject
@@ -88,7 +96,7 @@ structure St (α : Type) where
   pending : List (Item α) := []                   -- priority queue, kept sorted by (due, insertion)
   crashed : Option Err := none                    -- an exception escaped from an action out of `start()`
   -- the running action
-  agenda : List Task := []
+  agenda : List (Task α) := []
   curCall : Nat := 0
   raised : List (Nat × Err) := []                 -- (history call, exception its caller saw)
   xlog : List (Id × Err) := []                    -- exceptions caught by reacting callbacks
@@ -97,7 +105,7 @@ structure St (α : Type) where
   fed : Id → List (Notif α) := fun _ => []        -- everything handed to the AutoDetachObserver (by so_i.run / subscribe's fail path)
   allVals : List (Nat × α) := []                  -- every (now, value) the subject accepted
   lastNow : Nat := 0                              -- the latest `scheduler.now` the subject read
-  evs : List EvR := []                            -- oldest first
+  evs : List (EvR α) := []                            -- oldest first
 
 variable {α : Type}
 
@@ -119,7 +127,7 @@ def trimAge (w : Option Nat) (now : Nat) : List (Nat × α) → List (Nat × α)
     | none => x :: xs
     | some w' => if now - x.1 > w' then trimAge w now xs else x :: xs
 
-def trim (cfg : Cfg) (now : Nat) (q : List (Nat × α)) : List (Nat × α) :=
+def trim (cfg : Cfg α) (now : Nat) (q : List (Nat × α)) : List (Nat × α) :=
   trimAge cfg.window now (trimCount cfg.bufferSize q)
 
 /-! ### scheduler -/
@@ -211,12 +219,13 @@ def callback (st : St α) (i : Id) (n : Notif α) : St α :=
   { st with log := upd st.log i (st.log i ++ [(st.clock, n)]), cbs := upd st.cbs i (st.cbs i + 1),
             evs := st.evs ++ [EvR.cb i st.clock] }
 
-def reactions (cfg : Cfg) (st : St α) (i : Id) : List Task :=
+def reactions (cfg : Cfg α) (st : St α) (i : Id) : List (Task α) :=
   (cfg.react i (st.cbs i)).map (Task.act (some i))
 
-/-- `subject.on_next / on_error / on_completed` (the history call itself: the caller is the harness). -/
-def emit (cfg : Cfg) (st : St α) (n : Notif α) : St α :=
-  if st.disposed then raiseTo none disposedExn st                     -- check_disposed
+/-- `subject.on_next / on_error / on_completed`, called by `who` (`none`: the history call itself;
+`some i`: re-entrantly from a callback of observer i, which catches the exception). -/
+def emit (cfg : Cfg α) (st : St α) (who : Option Id) (n : Notif α) : St α :=
+  if st.disposed then raiseTo who disposedExn st                      -- check_disposed
   else if st.stopped then st                                          -- Observer: `if not self.is_stopped`
   else
     let now := st.clock
@@ -250,7 +259,7 @@ def pushList (st : St α) (j : Id) : List (Notif α) → St α
 /-- `ReplaySubject._subscribe_core` on an undisposed subject, followed by the assignment of the returned
 `RemovableDisposable` to the (fresh, undisposed) SingleAssignmentDisposable of j's AutoDetachObserver and
 the return of the handle to the user.  No user code runs in between. -/
-def subscribeCore (cfg : Cfg) (st : St α) (j : Id) : St α :=
+def subscribeCore (cfg : Cfg α) (st : St α) (j : Id) : St α :=
   let now := st.clock
   let st := { st with queue := trim cfg now st.queue, lastNow := now, observers := st.observers ++ [j] }
   let st := pushList st j (st.queue.map fun (it : Nat × α) => Notif.next it.2)
@@ -262,7 +271,7 @@ def subscribeCore (cfg : Cfg) (st : St α) (j : Id) : St α :=
   { st with held := upd st.held j true, handle := upd st.handle j true }
 
 /-- `subject.subscribe(callbacks of j)` called by `who`; returns the reactions to run (fail path only). -/
-def doSub (cfg : Cfg) (st : St α) (who : Option Id) (j : Id) : St α × List Task :=
+def doSub (cfg : Cfg α) (st : St α) (who : Option Id) (j : Id) : St α × List (Task α) :=
   if st.seen j then (st, [])
   else
     let st := { st with seen := upd st.seen j true, evs := st.evs ++ [EvR.sub j st.clock] }
@@ -277,7 +286,7 @@ def doSub (cfg : Cfg) (st : St α) (who : Option Id) (j : Id) : St α × List Ta
 
 /-- `ado_i.on_next / on_error / on_completed` called from `so_i.run`.  Returns the follow-up tasks and
 whether an exception escapes (`default_error` of a missing `on_error` handler). -/
-def adoDeliver (cfg : Cfg) (st : St α) (i : Id) (n : Notif α) : St α × List Task × Option Err :=
+def adoDeliver (cfg : Cfg α) (st : St α) (i : Id) (n : Notif α) : St α × List (Task α) × Option Err :=
   if st.adoStopped i then (st, [], none)
   else
     match n with
@@ -290,7 +299,7 @@ def adoDeliver (cfg : Cfg) (st : St α) (i : Id) (n : Notif α) : St α × List 
       else (sadDispose st i, [], some e)
 
 /-- `so_i.run` invoked by the scheduler. -/
-def soRun (cfg : Cfg) (st : St α) (i : Id) : St α :=
+def soRun (cfg : Cfg α) (st : St α) (i : Id) : St α :=
   match st.soQueue i with
   | [] => { st with acquired := upd st.acquired i false }
   | n :: rest =>
@@ -302,24 +311,26 @@ def soRun (cfg : Cfg) (st : St α) (i : Id) : St α :=
       { r.1 with soQueue := upd r.1.soQueue i [], faulted := upd r.1.faulted i true, crashed := some e }
     | none => { r.1 with agenda := r.2.1 ++ [.resched i] }
 
-def doTask (cfg : Cfg) (st : St α) : Task → St α
-  | .act who (.sub j) => let r := doSub cfg st who j; { r.1 with agenda := r.2 ++ r.1.agenda }
-  | .act _ (.unsub j) => doUnsub st j
-  | .act _ .dispose => subjDispose st
+def doTask (cfg : Cfg α) (st : St α) : Task α → St α
+  | .act who (.base (.sub j)) => let r := doSub cfg st who j; { r.1 with agenda := r.2 ++ r.1.agenda }
+  | .act _ (.base (.unsub j)) => doUnsub st j
+  | .act _ (.base .dispose) => subjDispose st
+  | .act who (.emit n) =>
+    emit cfg (match who with | some i => { st with evs := st.evs ++ [EvR.emit i st.clock n] } | none => st) who n
   | .sadDispose i => sadDispose st i
   | .resched i => (scheduleRun st i).1
   | .handle j => { st with handle := upd st.handle j true }
 
 /-- One history call, made by the harness inside its scheduled action. -/
-def doCall (cfg : Cfg) (st : St α) (k : Nat) (c : Call α) : St α :=
+def doCall (cfg : Cfg α) (st : St α) (k : Nat) (c : Call α) : St α :=
   let st := { st with curCall := k, evs := st.evs ++ [EvR.call k st.clock st.observers.length] }
   match c with
-  | .next v => emit cfg st (.next v)
-  | .error e => emit cfg st (.error e)
-  | .completed => emit cfg st .completed
-  | .sub i => { st with agenda := [.act none (.sub i)] }
-  | .unsub i => { st with agenda := [.act none (.unsub i)] }
-  | .dispose => { st with agenda := [.act none .dispose] }
+  | .next v => emit cfg st none (.next v)
+  | .error e => emit cfg st none (.error e)
+  | .completed => emit cfg st none .completed
+  | .sub i => { st with agenda := [.act none (.base (.sub i))] }
+  | .unsub i => { st with agenda := [.act none (.base (.unsub i))] }
+  | .dispose => { st with agenda := [.act none (.base .dispose)] }
 
 /-- `start()` has dequeued an item due at `due`: advance the clock / the spin counter. -/
 def advance (st : St α) (due : Nat) : St α :=
@@ -330,7 +341,7 @@ def advance (st : St α) (due : Nat) : St α :=
   { st with spin := st.spin + 1 }
 
 /-- `if not item.is_cancelled(): item.invoke()` -/
-def invoke (cfg : Cfg) (st : St α) (it : Item α) : St α :=
+def invoke (cfg : Cfg α) (st : St α) (it : Item α) : St α :=
   if it.cancelled then st
   else
     match it.kind with
@@ -338,7 +349,7 @@ def invoke (cfg : Cfg) (st : St α) (it : Item α) : St α :=
     | .run i => soRun cfg st i
 
 /-- One step of `VirtualTimeScheduler.start` (or of the action it is executing). -/
-def step (cfg : Cfg) (st : St α) : St α :=
+def step (cfg : Cfg α) (st : St α) : St α :=
   match st.crashed with
   | some _ => st
   | none =>
@@ -352,7 +363,7 @@ def step (cfg : Cfg) (st : St α) : St α :=
 def idle (st : St α) : Bool :=
   st.crashed.isSome || (st.agenda.isEmpty && st.pending.isEmpty)
 
-def steps (cfg : Cfg) : Nat → St α → St α
+def steps (cfg : Cfg α) : Nat → St α → St α
   | 0, st => st
   | f + 1, st => if idle st then st else steps cfg f (step cfg st)
 
@@ -366,7 +377,7 @@ where
       go cs (k + 1) { st with pending := pqInsert { due := t, id := st.nextId, kind := .call k c } st.pending,
                               nextId := st.nextId + 1 }
 
-def run (cfg : Cfg) (fuel : Nat) (calls : List (Nat × Call α)) : St α :=
+def run (cfg : Cfg α) (fuel : Nat) (calls : List (Nat × Call α)) : St α :=
   steps cfg fuel (schedule calls)
 
 end SubjReplay
